@@ -30,8 +30,9 @@ COMPONENTS = {
 }
 ASSUMPTIONS = ["storage is configured without validators so that ids/pubkeys can be chosen freely; the "
                "query code does not depend on signatures",
-               "events whose created_at equals a since/until bound are excluded from the comparison "
-               "(their inclusion is free)"]
+               "whether an event stamped exactly on a since/until bound belongs to an answer is the back "
+               "end's choice, but the relations are evaluated on whole answers: that choice must not depend "
+               "on unrelated events or on the other conditions of the filter"]
 SHRINK = [["steps"], ["probes"]]
 
 T0 = histgen.T0
@@ -195,7 +196,7 @@ def run(case, sim):
             for pi, f in enumerate(case["probes"]):
                 got = await ask(pi, f, "init")
                 if got is not None:
-                    answers[pi] = {e["id"] for e in got if not on_boundary(e, f)}
+                    answers[pi] = {e["id"] for e in got}
             for si, step in enumerate(case["steps"]):
                 pre = w.env.dump()
                 if step[0] == "add":
@@ -213,7 +214,7 @@ def run(case, sim):
                     got = await ask(pi, f, "step")
                     if got is None:
                         continue
-                    now = {e["id"] for e in got if not on_boundary(e, f)}
+                    now = {e["id"] for e in got}
                     related = any(model.matches(e, f, "inclusive") for e in changed)
                     if not related:
                         probes_c["unrelated_rechecks"] += 1
@@ -258,7 +259,7 @@ def run(case, sim):
                 if g != f:
                     narrower = await ask(pi, g, "meta")
                     if narrower is not None:
-                        extra = {e["id"] for e in narrower if not on_boundary(e, g)} - base_ids
+                        extra = {e["id"] for e in narrower} - base_ids
                         probes_c["pairs_condition"] += 1
                         if extra:
                             viol.append({"cls": "condition-adds-results",
@@ -270,7 +271,7 @@ def run(case, sim):
                 g["until"] = min(g.get("until", 2 ** 31 - 1), a["created_at"] + 3)
                 narrower = await ask(pi, g, "meta")
                 if narrower is not None:
-                    extra = {e["id"] for e in narrower if not on_boundary(e, g)} - base_ids
+                    extra = {e["id"] for e in narrower} - base_ids
                     probes_c["pairs_window"] += 1
                     if extra:
                         viol.append({"cls": "window-adds-results",
@@ -290,8 +291,7 @@ def run(case, sim):
                         parts |= {e["id"] for e in r}
                     if ok:
                         probes_c["pairs_union"] += 1
-                        bnd = {i for i, e in final.items() if on_boundary(e, f)}
-                        if (parts - bnd) != (base_ids - bnd):
+                        if parts != base_ids:
                             viol.append({"cls": "union-mismatch",
                                          "sig": "union-mismatch|%s|%s|%s" % (backend, qcommon.plan_label(backend, f),
                                                                              qcommon.filter_shape(f)),
